@@ -184,7 +184,12 @@ From RTCP Require Import Proofs.Tactics Lib.GoSem Gen.Funcs Check.GoOpaque Proof
   Proofs.SourceEquiv Proofs.SrcConv Proofs.SourceSR Proofs.SourceRR Proofs.SourceSdes Proofs.SourceByeApp
   Proofs.SourceFeedback1 Proofs.SourceFeedback2 Proofs.SourceCcfb Proofs.SourceTwccEnc Proofs.SourceTwccDec
   Proofs.SourcePacket Proofs.SourceCompound Proofs.SourceCompoundClosed.
-From RTCP Require Import Lib.Base Lib.GoSem Gen.Consts Gen.Funcs Model.Header Model.Reports Model.Sdes Model.ByeApp Model.Feedback Model.Twcc Model.Ccfb Model.Packet Proofs.SourceEquiv Proofs.SrcConv Proofs.SourceFeedback2 Proofs.SourceSR Proofs.SourceRR Proofs.SourceSdes Proofs.SourceByeApp Proofs.SourceFeedback1 Proofs.SourceCcfb Proofs.SourceTwccEnc Proofs.SourceTwccDec Proofs.SourcePacket Proofs.SourceCompound Proofs.SourceCompoundClosed Proofs.SourceTheorems.
+From Coq Require Import String.
+From RTCP Require Import Proofs.Tactics Lib.GoSem Lib.Reflect Gen.Layouts Gen.Funcs Model.Xr Proofs.GoSemFacts Proofs.SrcConv.
+From RTCP Require Import Proofs.Tactics Lib.GoSem Lib.Reflect Gen.Layouts Gen.Funcs Gen.FuncsXr Model.Header Model.Xr
+  Proofs.GoSemFacts Proofs.SrcConv Proofs.HeaderProofs Proofs.EncXr Proofs.SourceEquiv Proofs.SourceXr Check.GoOpaque Check.XrOracles.
+From RTCP Require Import Spec.Enc Spec.XrSpec Proofs.XrRead Proofs.Total3.
+From RTCP Require Import Lib.Base Lib.GoSem Gen.Consts Gen.Funcs Model.Header Model.Reports Model.Sdes Model.ByeApp Model.Feedback Model.Twcc Model.Ccfb Model.Packet Proofs.SourceEquiv Proofs.SrcConv Proofs.SourceFeedback2 Proofs.SourceSR Proofs.SourceRR Proofs.SourceSdes Proofs.SourceByeApp Proofs.SourceFeedback1 Proofs.SourceCcfb Proofs.SourceTwccEnc Proofs.SourceTwccDec Proofs.SourcePacket Proofs.SourceCompound Proofs.SourceCompoundClosed Proofs.SourceTheorems Proofs.SourceXr Proofs.SourceXrCodec.
 Module C01_SourceFeedback2.
 Import Proofs.SourceFeedback2.
 Local Open Scope Z_scope.
@@ -349,4 +354,13 @@ Theorem C01_src_TransportLayerCC_alloc : forall b t, GoSrc.TransportLayerCC_Unma
 Proof. exact source_C01_TransportLayerCC_alloc. Qed.
 Print Assumptions C01_src_TransportLayerCC_alloc.
 End C01_SourceTheorems.
+Module C01_SourceXrCodec.
+Import Proofs.SourceXrCodec.
+Local Open Scope Z_scope.
+Theorem C01_src_xr_unmarshal_total : forall x0 b,
+  X.ExtendedReport_Unmarshal m_read_uint32 m_read_XRHeader m_read_ReportBlock x0 b <> Panic /\
+  X.ExtendedReport_Unmarshal m_read_uint32 m_read_XRHeader m_read_ReportBlock x0 b <> Fuel.
+Proof. exact source_C01_xr_unmarshal_total. Qed.
+Print Assumptions C01_src_xr_unmarshal_total.
+End C01_SourceXrCodec.
 (* END source-translation *)
